@@ -57,8 +57,7 @@ Definition s_builder_drop (w : sworld) (e : entity) : sworld :=
 
 Definition hd_choice (cs : list N) : N := match cs with i :: _ => i | [] => 0 end.
 
-Definition sstep (w0 : sworld) (o : op) (cs : list N) : sworld * wout :=
-  let w := s_with_env w0 (env_begin (s_env w0)) in
+Definition sstep_core (w : sworld) (o : op) (cs : list N) : sworld * wout :=
   match o with
   | OCreate k => let '(w1, e) := s_create false w (hd_choice cs) in (s_insert_comps w1 e k, WHandles [e])
   | OCreateDropped k =>
@@ -119,6 +118,9 @@ Definition sstep (w0 : sworld) (o : op) (cs : list N) : sworld * wout :=
   | ODropWorld => (s_with_env w (env_drop_world (s_env w)), WUnit)
   | OBad => (w, WSkip)
   end.
+
+Definition s_begin (w : sworld) : sworld := s_with_env w (env_begin (s_env w)).
+Definition sstep (w : sworld) (o : op) (cs : list N) : sworld * wout := sstep_core (s_begin w) o cs.
 
 (* the choices an observed output reveals *)
 Definition choices_of (out : wout) : list N :=
